@@ -48,6 +48,24 @@ def check_extrema_bigint(ctx, rng):
     wig = np.round(40 * np.sin(2 * np.pi * np.arange(n) / float(rng.uniform(5, 12))) + rng.integers(-6, 7, n)).astype(np.int64)
     for mode in MODES:
         _bigint_mode(ctx, base, wig, mode)
+    # ... and recordings that use the full range of a narrow signed type (neighbouring samples further apart than the type's maximum)
+    dt = gens.pick(rng, [np.int8, np.int16])
+    top = np.iinfo(dt).max
+    xi = (np.round(.97 * top * np.sin(2 * np.pi * np.arange(n) / 2.37 + float(rng.uniform(0, 6)))) + rng.integers(-3, 4, n)).clip(-top, top).astype(dt)
+    for mode in ('peaks', 'troughs'):
+        y = xi.astype(np.int64) * (1 if mode == 'peaks' else -1)
+        rl = np.array([i for i in range(1, n - 1) if y[i] > y[i - 1] and y[i] > y[i + 1]], dtype=int)
+        case = {'kind': 'fullscale', 'x': xi, 'dtype': np.dtype(dt).name, 'mode': mode}
+        ctx.case(digest(xi, mode, 'fullscale'), len(rl) > 1)
+        ctx.count('full_scale_integer_recordings_checked')
+        try:
+            locs, mags = S.get_padded_extrema(xi.copy(), pad_width=0, mode=mode)
+        except Exception as e:
+            ctx.violation('extrema-exception:%s' % type(e).__name__, 'get_padded_extrema raised %s on a full-scale %s recording' % (type(e).__name__, np.dtype(dt).name), case)
+            continue
+        if len(rl) > 1 and (locs is None or not np.array_equal(np.asarray(locs), rl)):
+            ctx.violation('extrema-interior:full-scale-integers', 'the %s of a full-scale %s recording are not its strict local extrema: %s found, %d exist'
+                          % (mode, np.dtype(dt).name, 'none' if locs is None else len(locs), len(rl)), case)
 
 
 def _bigint_mode(ctx, base, wig, mode):
@@ -322,6 +340,14 @@ def replay(ctx, case):
     from emd import sift as S
     if case['kind'] == 'bigint':
         return _bigint_mode(ctx, case['base'], case['wiggle'], case['mode'])
+    if case['kind'] == 'fullscale':
+        xi = np.asarray(case['x']).astype(case['dtype'])
+        y = xi.astype(np.int64) * (1 if case['mode'] == 'peaks' else -1)
+        rl = np.array([i for i in range(1, len(xi) - 1) if y[i] > y[i - 1] and y[i] > y[i + 1]], dtype=int)
+        locs, mags = S.get_padded_extrema(xi.copy(), pad_width=0, mode=case['mode'])
+        if len(rl) > 1 and (locs is None or not np.array_equal(np.asarray(locs), rl)):
+            ctx.violation('extrema-interior:full-scale-integers', 'replayed', case)
+        return
     x = np.asarray(case['x'], dtype=float)
     with PadStepMonitor(S) as PADMON:
         _replay(ctx, case, x)
